@@ -27,6 +27,11 @@ huge         : value class HUGE -- syntactically valid integers whose unit conve
 paths        : URL path classes (raw space, %20, %2F, '+' ';', escaped + trailing slash, query string) through the
                signal variable, the generic variable, WithEndpointURL and WithURLPath of the HTTP exporters; the
                collectors record the request target as sent on the wire (RequestURI), the model's Wire() decides.
+unparsable   : value class UNPARSABLE of endpoint sources (text that is no URL: "http://[::1", bad port, bad escape, control
+               character, space in the scheme, host:port without scheme; unparsable WithEndpointURL) in every source
+               position of the six exporters: provides nothing -> the NEXT source decides host and path (not the
+               built-in default); model: ProvidesNothing / UnparsableIsUnset; the class next to plain sources is always
+               in the quick sample; mismatch classes unparsable-not-skipped / unparsable-not-skipped-path.
 cross        : metamorphic clause of the batch processors: a configuration of the four variables and
                NormalizeCross(cfg) (ill-formed values without documented meaning -> absent) are both executed,
                queue capacity / batch size / export deadline of both are logged as `Pair` lines and compared
